@@ -11,8 +11,9 @@ spec->code: Gen_Provider prints every transition of the model's tree graph up to
             (0, 1, 700, 1024, 1025, 1500, 2048, 2049, 3000 bytes), as groups that are distinct but collide under
             partial sampling (same first KiB and different after it, different only in the middle / tail / head);
             once a file exists the generator writes the same bytes or a colliding partner over it / next to it.
-            The simulation draws contents group by group in the same way.  Each sequence is executed on a FRESH provider of every kind: the four MockProvider flavours (+ filter_events
-            for the id-style ones in thorough) and FileSystemProvider over a fresh temporary directory.
+            The simulation draws contents group by group in the same way.  Each sequence is executed on a FRESH
+            provider of every kind: the four MockProvider flavours (+ filter_events for the id-style ones in
+            thorough) and FileSystemProvider over a fresh temporary directory.
 code->spec: after every call the harness records the result (exception class / returned id / hash) and the events
             drained since the previous call; and a FULL OBSERVATION of the provider: info_path/exists_path for every
             path of the universe, info_oid/exists_oid/hash_oid/download/listdir for every id, hash_data for every
@@ -542,7 +543,7 @@ def signature(kind, case, trace, line, clause):
 DIVERGE = ("ErrorClass", "QueriesAgree", "IdStable", "IdIsNormalisedPath")
 
 
-def judge(ctx, results, what, stats=None, min_batch=1200):
+def judge(ctx, results, what, stats=None):
     """TLC judges the recorded traces, one batch of JVMs per (id style, case mode).
     Traces of the exhaustive family are observed in full only after their last call; their shorter prefixes are
     traces of their own.  When TLC found that the provider's tree already differed from the model after a proper
@@ -569,7 +570,7 @@ def judge(ctx, results, what, stats=None, min_batch=1200):
         oip, cs, traces, meta = g
         part = Part(max(1, min(ctx.workers, round(ctx.workers * len(traces) / max(1, nall)))))
         viols, _ = tc.validate(part, "Trace_Provider", trace_cfg(ctx, oip, cs), traces,
-                               "%s [%s]" % (what, flavour_name(oip, cs)), min_batch=min_batch)
+                               "%s [%s]" % (what, flavour_name(oip, cs)), min_batch=1200)
         return part, viols
 
     with ThreadPoolExecutor(max_workers=len(groups) or 1) as pool:
@@ -632,8 +633,8 @@ def run(ctx):
         "share the first KiB and differ after it / differ only in the middle, the tail or the head), where a file "
         "is followed by the same bytes or a colliding partner - plus -simulate sequences of 10 calls over the full "
         "alphabet (a, A, b, e-acute, a.b, forbidden name) and all 18 contents, group by group.  hash_data of all 18 "
-        "contents is recorded at every observation.  Every sequence is executed on a fresh provider of each kind and judged "
-        "by Trace_Provider (TLC).  distinct = distinct (provider kind, call sequence); non-trivial = at least one call "
+        "contents is recorded at every observation.  Every sequence is executed on a fresh provider of each kind and "
+        "judged by Trace_Provider (TLC).  distinct = distinct (provider kind, call sequence); non-trivial = at least one call "
         "of the sequence returned without exception on the provider")
     ctx.assume(
         "real cloud providers (box, dropbox, gdrive, onedrive) cannot run offline and are out of scope",
@@ -695,13 +696,14 @@ def run(ctx):
         return parse_gen(res, content_names, 1, "content " + flavour_name(*fl)), res
 
     def simulated(fl):
-        res = ctx.tlc("Gen_Provider", gen_cfg(ctx, fl[0], fl[1], range(1, 7), range(1, NCONTENT + 1), 10, "final", bad=[BAD]),
+        res = ctx.tlc("Gen_Provider", gen_cfg(ctx, fl[0], fl[1], range(1, 7), all_contents, 10, "final", bad=[BAD]),
                       workers=1, simulate="num=%d" % nsim, depth=11, extra=["-seed", str(ctx.seed + 1)],
                       what="simulate 10 calls, full alphabet [%s]" % flavour_name(*fl), count=False)
         return parse_gen(res, range(1, 7), 2, "simulate " + flavour_name(*fl), every=True), res
 
     # design level (4), exhaustive tree family (4), content family (4), simulated long histories (4): sixteen TLC
-    # runs side by side; the exhaustive families are executed and judged while the design runs and the simulations are still going
+    # runs side by side; the exhaustive families are executed and judged while the design runs and the simulations
+    # are still going
     only = os.environ.get("VERIF_C16_KINDS", "").split(",") if os.environ.get("VERIF_C16_KINDS") else None   # debugging aid
     part = os.environ.get("VERIF_C16_PART", "all")                                                           # debugging aid
     stats, results, counted = {}, {}, []
@@ -725,10 +727,10 @@ def run(ctx):
                 plan.append((kind, cases))
             return plan
 
-        def do(plan, what, min_batch=1200):
+        def do(plan, what):
             res = run_cases(ctx, plan, workers)
             dbg("executed " + what)
-            n = judge(ctx, res, what, stats, min_batch)
+            n = judge(ctx, res, what, stats)
             dbg("judged " + what)
             ctx.count(evaluations=n)
             for kind, (cs_, ts_) in res.items():
@@ -785,8 +787,7 @@ def run(ctx):
             plan = kinds_plan(sims)
             for k, v in plan:
                 ctx.extra["family_sizes"][k] = ctx.extra["family_sizes"].get(k, 0) + len(v)
-            # few but long traces, observed in full after every call: judged in small batches, on all the cores
-            do(plan, "simulated sequences of 10 calls", min_batch=25 if quick else 150)
+            do(plan, "simulated sequences of 10 calls")
         counted += [f.result() for f in f_design]
         dbg("design runs")
     finally:
